@@ -95,3 +95,94 @@ func TestVerifBreakerHandlerStatuses(t *testing.T) {
 	})
 	c.Done()
 }
+
+// A handler that panics: the panic reaches the caller unchanged and the admitted request is
+// recorded as a failure (never as a success, whatever the handler had written before), so a
+// route whose handler keeps panicking is cut off like one that keeps answering 5xx.  8
+// panicking requests through a fresh BreakerHandler, then one probe with the drop draw
+// forced to 0: the probe must be rejected.
+func TestVerifBreakerHandlerPanics(t *testing.T) {
+	defer vrt.WriteReport()
+	logx.Disable()
+	stat.SetReporter(nil)
+	if !vrt.Shard(1) {
+		return
+	}
+	c := vrt.NewCases("breakerhandler/panicking-handler")
+	vrt.RunOnce(vrt.Options{Name: "breakerhandler-panics"}, func(r *vrt.Run) {
+		vrt.SetRandHook(func() (int64, bool) { return 0, true })
+		values := map[string]any{"string": "boom", "error": fmt.Errorf("boom"), "abort": http.ErrAbortHandler}
+		for _, vname := range []string{"string", "error", "abort"} {
+			for _, before := range []string{"nothing", "header200", "body", "header404", "header500"} {
+				// mixed: how many of the 8 requests panic (the others answer 200)
+				for _, npanic := range []int{8, 6} {
+					ran, probe, i := 0, false, 0
+					nok := 8 - npanic // the non-panicking requests come first
+					h := BreakerHandler(http.MethodGet, fmt.Sprintf("/panic-%s-%s-%d", vname, before, npanic), stat.NewMetrics("verif"))(http.HandlerFunc(func(w http.ResponseWriter, req *http.Request) {
+						ran++
+						if probe || i < nok {
+							return
+						}
+						switch before {
+						case "header200":
+							w.WriteHeader(200)
+						case "body":
+							w.Write([]byte("x"))
+						case "header404":
+							w.WriteHeader(404)
+						case "header500":
+							w.WriteHeader(500)
+						}
+						panic(values[vname])
+					}))
+					input := fmt.Sprintf("panic value=%s after=%s panicking=%d/8", vname, before, npanic)
+					// the statement's rule with the draw pinned to 0: rejected iff (total-5) > 1.5*successes
+					total, succ := 0, 0
+					rejects := func() bool { return float64(total-5) > 1.5*float64(succ) }
+					bad := false
+					for i = 0; i < 8; i++ {
+						var got any
+						before := ran
+						func() {
+							defer func() { got = recover() }()
+							h.ServeHTTP(httptest.NewRecorder(), httptest.NewRequest(http.MethodGet, "/", nil))
+						}()
+						admitted := ran == before+1
+						if admitted == rejects() {
+							c.Violation(input, "panic outcome", fmt.Sprintf("request %d after %d outcomes (%d successes, every panic a failure): admitted=%v, want %v", i, total, succ, admitted, !rejects()))
+							bad = true
+							break
+						}
+						if !admitted {
+							continue
+						}
+						total++
+						if i < nok {
+							succ++
+						} else if got != values[vname] {
+							c.Violation(input, "panic not re-raised", fmt.Sprintf("request %d: the caller recovered %v, want the handler's panic value %v", i, got, values[vname]))
+							bad = true
+							break
+						}
+					}
+					if bad {
+						continue
+					}
+					loaded := ran
+					probe = true
+					rec := httptest.NewRecorder()
+					h.ServeHTTP(rec, httptest.NewRequest(http.MethodGet, "/", nil))
+					admitted := ran == loaded+1
+					c.Eval(fmt.Sprintf("value=%s/after=%s/panicking=%d/admitted=%v", vname, before, npanic, admitted), func() any {
+						return map[string]any{"panic_value": vname, "written_before_panic": before, "panicking_requests": npanic, "loaded": loaded, "probe_admitted": admitted, "probe_status": rec.Code}
+					})
+					want := rejects()
+					if admitted == want {
+						c.Violation(input, "panic outcome", fmt.Sprintf("%d recorded outcomes, %d successes (each panic is a failure), probe with draw 0 admitted=%v, want rejected=%v", total, succ, admitted, want))
+					}
+				}
+			}
+		}
+	})
+	c.Done()
+}
